@@ -113,16 +113,21 @@ Record simple_glyph := { sg_ends : list Z; sg_coords : list point }.
 Fixpoint last_opt {A} (l : list A) : option A :=
   match l with [] => None | [x] => Some x | _ :: r => last_opt r end.
 
+(* the three passes over the flag / x / y sections: `need` = number_of_coordinates *)
+Definition read_points (need : Z) (bs : list Z) : outcome (list point * list Z) :=
+  '(fl, bs) <- read_flags need bs ;;
+  '(dxs, bs) <- read_xs fl bs ;;
+  '(pts, bs) <- read_ys 0 0 fl dxs bs ;;
+  Ok (combine fl pts, bs).
+
 Definition read_simple (number_of_contours : Z) (bs : list Z) : outcome simple_glyph :=
   '(_, bs) <- rd_slice 8 bs ;;                               (* BoundingBox: four I16Be *)
   '(ends, bs) <- rd_u16_array number_of_contours bs ;;
   '(ilen, bs) <- rd_u16 bs ;;
   '(_, bs) <- rd_slice ilen bs ;;
   let n := match last_opt ends with None => 0 | Some l => l + 1 end in
-  '(fl, bs) <- read_flags n bs ;;
-  '(dxs, bs) <- read_xs fl bs ;;
-  '(pts, _) <- read_ys 0 0 fl dxs bs ;;
-  Ok {| sg_ends := ends; sg_coords := combine fl pts |}.
+  '(coords, _) <- read_points n bs ;;
+  Ok {| sg_ends := ends; sg_coords := coords |}.
 
 (* slice::get(start..=end) *)
 Definition get_incl {A} (l : list A) (s e : Z) : option (list A) :=
